@@ -10,6 +10,7 @@ from prosemirror.model.replace import ReplaceError
 
 from .. import core, gen, schemas
 from ..codec import doc_tokens, frag_tokens
+from ..reuse import Pool
 from ..core import outcome
 from . import c02_frag
 
@@ -42,6 +43,51 @@ def shared_depth_ref(tokens, f, t):
             d -= 1
             m = min(m, d)
     return m
+
+
+def depth_table(tokens):
+    """open depth at every position 0..len(tokens)"""
+    out, d = [0], 0
+    for t in tokens:
+        if t[0] == "op":
+            d += 1
+        elif t[0] == "cl":
+            d -= 1
+        out.append(d)
+    return out
+
+
+def fitting_range(rng, al, depths, sl):
+    """a range whose two ends lie as deep as the open sides of the slice ask for (depth(from) - open_start ==
+    depth(to) - open_end >= 0): the places where a slice of these open depths can go at all — half of the time one whose ends
+    lie in different subtrees below the level the slice is inserted at (the replace has to join nodes around the slice), if
+    there is one.  `al`: the pair-aligned positions of the document; None if there is no such range"""
+    by_depth = {}
+    for p in al:
+        by_depth.setdefault(depths[p], []).append(p)
+    starts = [p for p in al if depths[p] >= sl.open_start and (depths[p] - sl.open_start + sl.open_end) in by_depth]
+    rng.shuffle(starts)
+    want_cross = rng.random() < 0.5
+    fallback = None
+    for f in starts[:6]:
+        ends = [p for p in by_depth[depths[f] - sl.open_start + sl.open_end] if p >= f]
+        if not ends:
+            continue
+        if want_cross:
+            level = depths[f] - sl.open_start
+            cross, low, last = [], depths[f], f
+            for p in ends:
+                low = min([low] + depths[last:p + 1])
+                last = p
+                if low < level:
+                    cross.append(p)
+            if cross:
+                return f, rng.choice(cross)
+            fallback = fallback or (f, rng.choice(ends))
+            continue
+        near = [p for p in ends if p <= f + 8]
+        return f, rng.choice(near if near and rng.random() < 0.4 else ends)
+    return fallback
 
 
 def is_norm(json_node):
@@ -102,10 +148,107 @@ def run(ctx):
     # ---- the Fragment constructors and copy-on-write operations on generated node arrays (c02_frag.py)
     c02_frag.run(ctx, pools, reqs, metas, flush)
     per_doc = ctx.budget(14, 60)
+    tokcache = {}
+
+    def tokens_of(d, aligned=False):
+        v = tokcache.get(id(d))
+        if v is None or v[0] is not d:
+            toks = doc_tokens(d)
+            v = tokcache[id(d)] = [d, toks, depth_table(toks), None]
+        if aligned:
+            if v[3] is None:
+                v[3] = gen.aligned_positions(d)
+            return v[3]
+        return v[1], v[2]
+
+    def paste(info, d, other, ent, spool, light=False):
+        """d.replace(range, other) with every oracle and the model tie; `ent`: the pool entry of `other` when the Slice
+        object has been used before (then also: same answer as for a new equal object; re-insertion at home).
+        `light`: one more use of a used object, only compared with the answer for a new equal object"""
+        schema = info.schema
+        toks, depths = tokens_of(d)
+        size = d.content.size
+        f2, t2 = gen.random_range(rng, d)
+        if (ent is not None and rng.random() < 0.9) or rng.random() < 0.1:
+            # a place the slice's open depths fit (a pasted slice goes where it can go, not anywhere)
+            fit = fitting_range(rng, tokens_of(d, aligned=True), depths, other) if len(depths) == size + 1 else None
+            if fit is not None:
+                f2, t2 = fit
+                ctx.count("replace_at_a_depth_fitting_range")
+        st4, res = outcome(lambda: d.replace(f2, t2, other))
+        if ent is not None:
+            ctx.count("replace_with_a_slice_object_used_before")
+            ctx.count("slice_object_uses:%s" % (ent.uses if ent.uses < 4 else "4+"))
+            # the statement is about slices as values: what `replace` answers for (document, range, slice) — the
+            # spliced document, or the replace error when that is no valid tree — cannot be both of two different
+            # answers, so an equal Slice object that has not been used before must get the same one
+            stf, resf = outcome(lambda: d.replace(f2, t2, Slice(other.content, other.open_start, other.open_end)))
+            if stf != st4 or (st4 == "ok" and not res.eq(resf)):
+                ctx.violation("replace-object-history", "replace answers differently for a Slice object that was used in earlier "
+                              f"replaces ({st4}) than for an equal, new Slice object ({stf})",
+                              {"schema": info.name, "doc": d.to_json(), "from": f2, "to": t2, "slice": other.to_json(),
+                               "outcome": st4, "outcome_with_new_object": stf, "earlier_uses_of_the_slice_object": uses_json(ent)})
+            home = ent.meta.get("home")
+            if home is not None and not light:
+                # ... and re-inserting it where it was cut still gives back an equal document
+                hd, hf, ht = home
+                sth, hback = outcome(lambda: hd.replace(hf, ht, other))
+                ctx.count("reinsert_after_use_elsewhere")
+                if sth != "ok" or not hback.eq(hd):
+                    ctx.violation("reinsert", "re-inserting a slice where it was cut does not give back an equal document "
+                                  "(after the Slice object was used in other replaces)",
+                                  {"schema": info.name, "doc": hd.to_json(), "from": hf, "to": ht, "outcome": sth,
+                                   "detail": str(hback)[:200], "earlier_uses_of_the_slice_object": uses_json(ent) +
+                                   [{"doc": d.to_json(), "from": f2, "to": t2, "outcome": st4}]})
+            ent.used((d, f2, t2, st4))
+            if light:
+                ctx.count("light_pastes")
+                return f2, t2
+        elif rng.random() < 0.25:
+            spool.add(other, log=[(d, f2, t2, st4)])
+        ctx.case(["replace", info.name, d.to_json(), f2, t2, other.to_json()],
+                 sample={"op": "replace", "schema": info.name, "doc": str(d), "from": f2, "to": t2,
+                         "slice": str(other), "outcome": st4})
+        ctx.count("replace:" + st4)
+        ctx.count("replace_open:%d,%d" % (min(other.open_start, 3), min(other.open_end, 3)))
+        if st4 == "ok":
+            rtoks = doc_tokens(res)
+            exp = toks[:f2] + slice_tokens(schema, other) + toks[t2:]
+            bad = None
+            if rtoks != exp:
+                bad = "result tokens are not old[:from] + slice + old[to:]"
+            elif res.content.size != size + other.size - (t2 - f2):
+                bad = "size did not change by slice size minus range size"
+            elif not is_norm(res.to_json()):
+                bad = "adjacent same-markup text was not merged"
+            else:
+                stc, err = outcome(res.check)
+                if stc != "ok":
+                    bad = f"replace returned a document that fails check(): {err}"
+            if bad:
+                ctx.violation("replace-splice", bad,
+                              {"schema": info.name, "doc": d.to_json(), "from": f2, "to": t2,
+                               "slice": other.to_json(), "result": res.to_json()})
+        elif st4 not in ("failed",):
+            # in-range, pair-aligned, well-formed slice: only the replace error is acceptable
+            ctx.violation("replace-raises", f"Node.replace raised a non-ReplaceError: {res}",
+                          {"schema": info.name, "doc": d.to_json(), "from": f2, "to": t2, "slice": other.to_json()})
+        reqs.append({"op": "replace", "s": info.lean_id, "doc": info.node(d), "from": f2, "to": t2,
+                     "slice": info.slice(other)})
+        metas.append(("replace", info, d, (f2, t2, other), (st4, info.node(res) if st4 == "ok" else None)))
+        return f2, t2
+
+    def uses_json(ent):
+        return [{"doc": x.to_json(), "from": a, "to": b, "outcome": o} for (x, a, b, o) in ent.log]
+
     for info, docs in pools:
         schema = info.schema
+        # Slice objects that have been through a replace already (cut from a document and re-inserted there; pasted into
+        # another document): a slice is a value — a clipboard slice is pasted several times, a step's slice is applied to
+        # several documents — so the same object is handed to further replaces at other places, under other ancestors
+        spool = Pool(rng, cap=8)
         for d in docs:
-            toks = doc_tokens(d)
+            toks, _depths = tokens_of(d)
             size = d.content.size
             ctx.count("doc_size_le_%d" % (10 if size <= 10 else 30 if size <= 30 else 100))
             if len(toks) != size:
@@ -150,6 +293,8 @@ def run(ctx):
                     ctx.violation("reinsert", "re-inserting a slice where it was cut does not give back an equal document",
                                   {"schema": info.name, "doc": d.to_json(), "from": f, "to": t, "outcome": st2,
                                    "detail": str(back)[:200]})
+                if f < t and st2 == "ok" and rng.random() < 0.15:
+                    spool.add(sl, log=[(d, f, t, st2)], home=(d, f, t))
                 # ---- cut
                 st3, cut = outcome(lambda: d.cut(f, t))
                 if st3 == "ok":
@@ -157,40 +302,16 @@ def run(ctx):
                     metas.append(("cut", info, d, (f, t), ("ok", info.frag(cut.content))))
                 else:
                     ctx.violation("cut-raises", f"Node.cut raised {cut}", {"schema": info.name, "doc": d.to_json(), "from": f, "to": t})
-                # ---- replace with a foreign slice
-                other = gen.random_slice(rng, docs)
-                f2, t2 = gen.random_range(rng, d)
-                st4, res = outcome(lambda: d.replace(f2, t2, other))
-                ctx.case(["replace", info.name, d.to_json(), f2, t2, other.to_json()],
-                         sample={"op": "replace", "schema": info.name, "doc": str(d), "from": f2, "to": t2,
-                                 "slice": str(other), "outcome": st4})
-                ctx.count("replace:" + st4)
-                ctx.count("replace_open:%d,%d" % (min(other.open_start, 3), min(other.open_end, 3)))
-                if st4 == "ok":
-                    rtoks = doc_tokens(res)
-                    exp = toks[:f2] + slice_tokens(schema, other) + toks[t2:]
-                    bad = None
-                    if rtoks != exp:
-                        bad = "result tokens are not old[:from] + slice + old[to:]"
-                    elif res.content.size != size + other.size - (t2 - f2):
-                        bad = "size did not change by slice size minus range size"
-                    elif not is_norm(res.to_json()):
-                        bad = "adjacent same-markup text was not merged"
-                    else:
-                        stc, err = outcome(res.check)
-                        if stc != "ok":
-                            bad = f"replace returned a document that fails check(): {err}"
-                    if bad:
-                        ctx.violation("replace-splice", bad,
-                                      {"schema": info.name, "doc": d.to_json(), "from": f2, "to": t2,
-                                       "slice": other.to_json(), "result": res.to_json()})
-                elif st4 not in ("failed",):
-                    # in-range, pair-aligned, well-formed slice: only the replace error is acceptable
-                    ctx.violation("replace-raises", f"Node.replace raised a non-ReplaceError: {res}",
-                                  {"schema": info.name, "doc": d.to_json(), "from": f2, "to": t2, "slice": other.to_json()})
-                reqs.append({"op": "replace", "s": info.lean_id, "doc": info.node(d), "from": f2, "to": t2,
-                             "slice": info.slice(other)})
-                metas.append(("replace", info, d, (f2, t2, other), (st4, info.node(res) if st4 == "ok" else None)))
+                # ---- replace with a foreign slice: a new one, or a Slice object that has been through other replaces
+                ent = spool.draw() if len(spool) and rng.random() < 0.3 else None
+                other = ent.obj if ent is not None else gen.random_slice(rng, docs)
+                f2, t2 = paste(info, d, other, ent, spool)
+                if ent is not None:
+                    # ... which is pasted at further places right away, in other documents too
+                    if rng.random() < 0.5:
+                        paste(info, rng.choice(docs), other, ent, spool)
+                    for _p in range(3):
+                        paste(info, rng.choice(docs), other, ent, spool, light=True)
                 if f2 < t2 and rng.random() < 0.15:
                     # a range that ends before it starts, both ends inside the document: refused with the replace error
                     # (never a document, never an internal error), by the code and by the model alike
